@@ -3,6 +3,7 @@ import WhVerif.Lemmas.C11Geno
 import WhVerif.Lemmas.C11PolyPairs
 import WhVerif.Lemmas.C11Invariant
 import WhVerif.Lemmas.C11Glue
+import WhVerif.Lemmas.C11RunSpec
 /-!
 # C11 — `whatshap compare` reports the defined error counts, independent of haplotype labelling
 
@@ -502,5 +503,98 @@ example : wellFormed [[0,1],[1,0],[0,0],[1,1],[0,1],[0,0]] [[1,1],[0,0],[0,0],[1
 theorem perms_are_exactly_the_bijections (p : Nat) (σ : Perm) :
     (σ ∈ perms p ↔ σ.length = p ∧ σ.Nodup ∧ ∀ x ∈ σ, x < p) ∧ perms p = Spec.bijections p :=
   ⟨mem_perms_iff p σ, perms_eq_bijections p⟩
+
+/-! ## the pairwise report against its definition (`Spec/C11Run.lean`)
+
+`Spec.pairSpec` / `Spec.runSpec` DEFINE what `whatshap compare` must report for two diploid call lists (common heterozygous
+variants, intersection blocks by naive group-by, per block the error counts by definition, totals as sums, first longest
+block, BED rows, `het_variants0`).  Full statement aimed at (compared three-way on every run: Lean spec `c11.runspec`, Python
+oracle, real CLI; not yet proved in full):
+
+    theorem run_compare_meets_spec (t0 t1) (hgt : every call has 2 alleles) (r) (h : comparePair true true true true true 2 t0 t1 = some r) :
+      let S := Spec.pairSpec t0 t1
+      r.intersectionBlocks = S.intersectionBlocks ∧ r.coveredVariants = S.coveredVariants ∧ r.assessedPairs = S.assessedPairs ∧
+      r.total = ⟨S.switches, S.hamming, ⟨S.sfSwitches, S.sfFlips⟩, S.diffGenotypes, 1⟩ ∧ r.bed = S.bed ∧
+      r.perBlock.map (fun b => (b.1, b.2.1)) = S.blocks.map (fun b => (b.positions, ⟨b.switches, b.hamming, ⟨b.sfSwitches, b.sfFlips⟩, b.diffGenotypes, 1⟩)) ∧ …
+
+Missing for it: `jointBlocks` (a `foldl` of `addToBlocks`) = `Spec.groupByKey` (naive group-by) on the keyed variants, and
+`sfLoop` = run-length decomposition `Spec.runLengths`; per block `switches`, `hamming`, `diffGenotypes` already equal their
+definitions by `switch_errors_count_correspondence_changes`, `hamming_is_min_over_correspondences`, `diff_genotypes_eq_definition`
+(+ `assessed_diploid_blocks_are_complementary` for their hypotheses).  Proved below: the totals part and the shape of the run. -/
+
+/-- **totals = sums over the intersection blocks**, any ploidy, any flags, any number of blocks: every total column of a
+pairwise row (`all_switches`, `blockwise_hamming`, `all_switchflips` both parts, `blockwise_diff_genotypes`,
+`all_assessed_pairs`, `covered_variants`, `intersection_blocks`) is the sum over the per-block results `compare_block`
+returned for the intersection blocks with ≥ 2 variants (`perBlock`: positions, errors) — nothing is dropped, nothing is
+counted twice, whatever block becomes "the longest" -/
+theorem totals_are_sums (fixA fixB fix3 fix45 fix46 : Bool) (ploidy : Nat) (t0 t1 : List Call) (r : PairResult)
+    (h : comparePair fixA fixB fix3 fix45 fix46 ploidy t0 t1 = some r) :
+    r.total.switches = (r.perBlock.map (·.2.1.switches)).sum ∧
+    r.total.hamming = (r.perBlock.map (·.2.1.hamming)).sum ∧
+    r.total.sf.switches = (r.perBlock.map (·.2.1.sf.switches)).sum ∧
+    r.total.sf.flips = (r.perBlock.map (·.2.1.sf.flips)).sum ∧
+    r.total.diffGenotypes = (r.perBlock.map (·.2.1.diffGenotypes)).sum ∧
+    r.assessedPairs = (r.perBlock.map (·.1.length - 1)).sum ∧
+    r.coveredVariants = (r.perBlock.map (·.1.length)).sum ∧
+    r.intersectionBlocks = r.perBlock.length := by
+  unfold comparePair at h
+  simp only at h
+  split at h
+  · cases h
+  · rename_i st hst
+    injection h with h; subst h
+    obtain ⟨g1, g2, g3, g4, g5, g6⟩ := pairLoop_good _ _ _ _ _ _ _ _ _ _ _ good_init hst
+    have hl := pairLoop_lengths _ _ _ _ _ _ _ _ _ _ _ hst
+    simp only [List.map_nil, List.nil_append] at hl
+    refine ⟨g1, g2, g3, g4, g5, g6, ?_, ?_⟩
+    · simp only [hl]
+    · have := congrArg List.length hl
+      simpa using this.symm
+
+example : (comparePair true true true true true 2
+      [⟨10,[0,1],true,1⟩, ⟨20,[0,1],true,1⟩, ⟨30,[1,0],true,2⟩, ⟨40,[0,1],true,2⟩, ⟨50,[0,1],true,2⟩]
+      [⟨10,[0,1],true,7⟩, ⟨20,[1,0],true,7⟩, ⟨30,[0,1],true,7⟩, ⟨40,[0,1],true,7⟩, ⟨50,[0,1],true,7⟩]).map
+        (fun r => (r.total.switches, r.perBlock.length, r.coveredVariants)) = some (2, 2, 5) := by decide
+
+/-- **shape of the whole run** (any number of files, chromosomes, pairs; any flags): every pairwise result `run_compare`
+produces — on every common chromosome, for every pair of files — is `compare` applied to two call lists, so
+`totals_are_sums` (and every per-block theorem above) applies to every row of `--tsv-pairwise` -/
+theorem run_compare_rows_are_pair_comparisons (fix3 fix45 fix46 : Bool) (o : Opts) (files : List VFile) (out : List ChromOut)
+    (h : runCompare fix3 fix45 fix46 o files = .ok out) :
+    ∀ ch ∈ out, ∀ po ∈ ch.pairs, ∀ r, po.result = some r →
+      (∃ t0 t1, comparePair true true fix3 fix45 fix46 o.ploidy t0 t1 = some r) ∧
+      r.total.switches = (r.perBlock.map (·.2.1.switches)).sum ∧
+      r.total.hamming = (r.perBlock.map (·.2.1.hamming)).sum ∧
+      r.total.sf.switches = (r.perBlock.map (·.2.1.sf.switches)).sum ∧
+      r.total.sf.flips = (r.perBlock.map (·.2.1.sf.flips)).sum ∧
+      r.total.diffGenotypes = (r.perBlock.map (·.2.1.diffGenotypes)).sum ∧
+      r.assessedPairs = (r.perBlock.map (·.1.length - 1)).sum ∧
+      r.coveredVariants = (r.perBlock.map (·.1.length)).sum ∧
+      r.intersectionBlocks = r.perBlock.length := by
+  intro ch hch po hpo r hr
+  have hmem : ∃ names tabsAll cs, ch ∈ runChroms fix3 fix45 fix46 o files tabsAll names cs := by
+    unfold runCompare at h
+    cases hn : sampleNames o files with
+    | error e => simp [hn, bind, Except.bind] at h
+    | ok names =>
+      cases ht : files.mapM (readFile o) with
+      | error e => simp [hn, ht, bind, Except.bind] at h
+      | ok tabsAll =>
+        simp only [hn, ht, bind, Except.bind] at h
+        split at h
+        · cases h
+        · simp only [pure, Except.pure, Except.ok.injEq] at h
+          subst h
+          exact ⟨_, _, _, hch⟩
+  obtain ⟨names, tabsAll, cs, hc⟩ := hmem
+  obtain ⟨t0, t1, ht⟩ := runChroms_results fix3 fix45 fix46 o files tabsAll names cs ch hc po hpo
+  rw [hr] at ht
+  exact ⟨⟨t0, t1, ht.symm⟩, totals_are_sums _ _ _ _ _ _ _ _ r ht.symm⟩
+example :
+    let f1 : VFile := ⟨["S"], [⟨"c", 10, "A", ["C"], [⟨[some 0, some 1], true, some 10⟩]⟩, ⟨"c", 20, "A", ["C"], [⟨[some 0, some 1], true, some 10⟩]⟩]⟩
+    let f2 : VFile := ⟨["S"], [⟨"c", 10, "A", ["C"], [⟨[some 0, some 1], true, some 10⟩]⟩, ⟨"c", 20, "A", ["C"], [⟨[some 1, some 0], true, some 10⟩]⟩]⟩
+    (match runCompare true true true ⟨2, none, false, false⟩ [f1, f2] with
+      | .ok out => out.map (fun ch => ch.pairs.map (fun po => po.result.map (·.total.switches)))
+      | .error _ => []) = [[some 1]] := by decide
 
 end WhVerif.Props.C11
